@@ -104,6 +104,40 @@ def judge(ctx, run, meta, sched):
                         subjects=[n["subject"] for n in w.notifications][:6]))
 
 
+def judge_after_crash(ctx, run, meta, sched):
+    """After a kill and restart the file store has lost the execution records and histories (they are re-created from what the surviving
+    events carry), so only what every configuration must still get right is demanded: whatever record exists tells the same terminal story
+    as the last notification, on every surface that shows it.  With the Redis store nothing is lost and the full comparison applies."""
+    if meta.get("store") == "redis":
+        # (a restarted engine legitimately announces RUNNING again for a start event that is redelivered to it)
+        run.violations = [v for v in run.violations if not (v["rule"] in ("N-duplicate-running", "N-terminal-without-running") and v.get("after_crash"))]
+        return judge(ctx, run, meta, sched)
+    w = run.world
+    for arn in run.execs:
+        d = last_detail(run, arn)
+        if d is None or d.get("status") not in TERMINAL:
+            continue
+        for iid in w.engines:
+            code, rec = w.api("DescribeExecution", {"executionArn": arn}, iid=iid)
+            ctx.count("rest_views_compared")
+            if code != 200:
+                continue                    # the record may be gone with the process
+            if rec.get("status") != d.get("status") or (d["status"] == "FAILED" and rec.get("error") != d.get("error")) or \
+                    (d["status"] == "SUCCEEDED" and rec.get("output") != d.get("output")):
+                ctx.violation("record-after-restart-contradicts-the-terminal-notification", S.witness_of(run, dict(arn=arn, iid=iid, record=rec, notification=d, meta=meta)), None)
+            sm = arn.replace(":execution:", ":stateMachine:").rsplit(":", 1)[0]
+            code2, lst = w.api("ListExecutions", {"stateMachineArn": sm}, iid=iid)
+            mine = [e for e in lst.get("executions", []) if e["executionArn"] == arn] if code2 == 200 else []
+            if mine and mine[0]["status"] != rec.get("status"):
+                ctx.violation("ListExecutions-disagrees-with-DescribeExecution", S.witness_of(run, dict(arn=arn, iid=iid, listed=mine, record=rec)), None)
+            code3, hist = w.api("GetExecutionHistory", {"executionArn": arn}, iid=iid)
+            if code3 == 200 and hist.get("events"):
+                last = hist["events"][-1]
+                want = "ExecutionSucceeded" if d["status"] == "SUCCEEDED" else "ExecutionFailed"
+                if last["type"] != want:
+                    ctx.violation("history-after-restart-does-not-end-with-the-terminal-event", S.witness_of(run, dict(arn=arn, iid=iid, last=last, notification=d)), None)
+
+
 def run(ctx):
     n_cases = ctx.pick(150, 2500)
     n_random = ctx.pick(2, 8)
@@ -131,6 +165,33 @@ def run(ctx):
         if express:
             ctx.count("express_runs")
         _sched.run_schedules(ctx, scn, meta, judge, n_random, ["c11", k])
+    # the same story after the engine process was killed and restarted at a random point (the file store loses the execution records, the
+    # Redis store keeps them); half of the machines end in a transition to a state that does not exist, so that the first thing the restarted
+    # engine does for the execution may be to fail it
+    from lsfverif.checks import c04
+    for k in range(ctx.pick(60, 1200)):
+        if not ctx.mine(k):
+            continue
+        rng = ctx.rng("crash", k)
+        scn, meta = F.scenario(rng, "sequential", n_exec=1, config=dict(configs[k % len(configs)][1]))
+        asl = scn["machines"]["m"]["asl"]
+        if k % 2:
+            last = [n for n, st in asl["States"].items() if st.get("End")]
+            if last:
+                asl["States"][last[0]].pop("End"); asl["States"][last[0]]["Next"] = "Ghost"
+                ctx.count("crash_runs_ending_in_illegal_transition")
+        base = S.execute(scn, seed=ctx.seed, monitors=("notes",), settle=False)
+        n_steps = len(base.world.steps)
+        S.close(base)
+        for at in sorted(set(rng.randrange(0, n_steps + 1) for _ in range(ctx.pick(3, 8)))):
+            run = S.execute(scn, seed=ctx.seed, hooks=[c04.crash_hook(at, restart_delay=rng.choice([0.0, 0.5]))])
+            try:
+                _sched.observe(ctx, run)
+                ctx.count("crash_and_restart_runs")
+                ctx.distinct("schedules", [_sched.scn_key(scn), "crash", at])
+                judge_after_crash(ctx, run, dict(meta, family="crash-restart", crash_after_step=at, store=scn["config"].get("store", "json")), "crash-%d" % at)
+            finally:
+                S.close(run)
 
 
 def witnesses(ctx):
